@@ -37,6 +37,15 @@ pub struct Variant {
     pub dup: Option<(usize, usize)>,
     /// (value, replacement) for the i32 property at the 100% keyframe
     pub big100: Option<(i64, i32)>,
+    /// keyframes are added in the order k, k+1, .., n-1, 0, .., k-1 (only meaningful when all positions are distinct:
+    /// the result does not depend on the insertion order then - MC_Keyframes!OrderFree)
+    pub rot: usize,
+}
+
+/// all keyframe positions of the description are distinct
+pub fn distinct_positions(cfg: &Value) -> bool {
+    let mut pos: Vec<i64> = cfg["kfs"].as_array().unwrap().iter().map(|k| k["pos"].as_i64().unwrap()).collect();
+    pos.sort(); pos.windows(2).all(|w| w[0] != w[1])
 }
 
 /// The un-built builder (TimelineConfiguration) for the same description.
@@ -51,7 +60,10 @@ pub fn config_tl_var(cfg: &Value, pd: i64, pmap: &[usize], s: i64, var: Variant)
         .repeat(repeat_of(tm["rep"].as_i64().unwrap()))
         .reverse(tm["rev"].as_bool().unwrap())
         .default_easing(easing(cfg["de"].as_i64().unwrap()));
-    for (ki, kf) in cfg["kfs"].as_array().unwrap().iter().enumerate() {
+    let nkf = cfg["kfs"].as_array().unwrap().len();
+    for step in 0..nkf {
+        let ki = (step + var.rot) % nkf;
+        let kf = &cfg["kfs"][ki];
         let copies = match var.dup { Some((j, n)) if j == ki => n + 1, _ => 1 };
         for _ in 0..copies {
             let mut k = P4::keyframe(kf["pos"].as_i64().unwrap() as f32 / pd as f32);
@@ -179,6 +191,24 @@ pub fn replay_tl_line(tally: &mut Tally, lineno: usize, line: &Value, scales: &[
                         tally.miss(json!({"line": lineno, "scale": s, "class": "panic", "panic": msg})); }
         }
     }
+    // the same behaviour through a timeline type wired by hand on the re-exported building blocks
+    // (examples/macroless_timeline.rs), at the first scale
+    {
+        let s = scales[0];
+        let r = catch_unwind(AssertUnwindSafe(|| {
+            let mut local = Tally::new();
+            let mut tl = crate::macroless::build_hw(line, pd, &pmap, s);
+            if let Some(v) = start_values(&line["ov"], &pmap) { tl.start_with(&v); }
+            let tick = scale(s);
+            check_timeline(&mut local, lineno, 3000 + s, line, &tl, &|t| t as f32 * tick, &pmap);
+            local
+        }));
+        match r {
+            Ok(local) => tally.absorb(local),
+            Err(e) => { let msg = e.downcast_ref::<String>().cloned().or_else(|| e.downcast_ref::<&str>().map(|s| s.to_string())).unwrap_or_default();
+                        tally.miss(json!({"line": lineno, "scale": "hand-wired timeline", "class": "panic", "panic": msg})); }
+        }
+    }
     // extreme but finite values: the same behaviour with every float value multiplied by 2^121 (values up to
     // +-2.9e38, differences beyond f32::MAX)
     {
@@ -213,7 +243,7 @@ pub fn replay_tl_line(tally: &mut Tally, lineno: usize, line: &Value, scales: &[
         tally.tag("lines_with_66000_copies_of_one_keyframe");
         let r = catch_unwind(AssertUnwindSafe(|| {
             let mut local = Tally::new();
-            let mut tl = config_tl_var(line, pd, &pmap, 0, Variant { dup: Some((j, DUP_COPIES)), big100: None }).build();
+            let mut tl = config_tl_var(line, pd, &pmap, 0, Variant { dup: Some((j, DUP_COPIES)), ..Variant::default() }).build();
             if let Some(v) = start_values(&line["ov"], &pmap) { tl.start_with(&v); }
             check_timeline(&mut local, lineno, 2000 + j as i64, line, &tl, &|t| t as f32, &pmap);
             local
@@ -235,7 +265,7 @@ pub fn replay_tl_line(tally: &mut Tally, lineno: usize, line: &Value, scales: &[
             tally.tag("lines_with_i32_beyond_2^24_at_100%");
             let r = catch_unwind(AssertUnwindSafe(|| {
                 let mut local = Tally::new();
-                let mut tl = config_tl_var(line, pd, &pmap, 0, Variant { dup: None, big100: Some((orig, big)) }).build();
+                let mut tl = config_tl_var(line, pd, &pmap, 0, Variant { big100: Some((orig, big)), ..Variant::default() }).build();
                 if let Some(v) = start_values(&line["ov"], &pmap) { tl.start_with(&v); }
                 let ts = line.get("ts").and_then(|c| c.as_array());
                 for (ti, exp) in line["evals"].as_array().unwrap().iter().enumerate() {
